@@ -107,7 +107,7 @@ pub fn evaluate_pair(case: &PairCase, run: &PairRun, focus: Focus) -> Outcome {
         let other_end = run.events.iter().any(|ev| ev.side == *x && matches!(&ev.api, Api::ConnDone { result: Err(e) } if !(e.is_io && e.text == *text)));
         delivered && !other_end
     });
-    check_c17(&C17Ctx { tap: &tap, events: &run.events, h2_sides: &sides, settled, read_fault }, &mut out);
+    check_c17(&C17Ctx { tap: &tap, events: &run.events, h2_sides: &sides, settled, read_fault, quiescent: run.end == RunEnd::Quiescent, unfinished: &run.unfinished }, &mut out);
     let reset_max = [case.ccfg.reset_max.unwrap_or(50), case.scfg.reset_max.unwrap_or(50)];
     let c2s_shutdown = run.wire.c2s.borrow().shutdown_called;
     check_c19(
